@@ -2,18 +2,19 @@ CONSTANTS
   STAR = "*"
   QM = "?"
   COLON = ":"
+  Fold <- MCFold
   Dev = {}
   Apps <- MCApps
   Reqs <- MCReqs
-  RoutePats <- RP2
-  HostPats <- HP2
+  RoutePats <- RPE
+  HostPats <- HPS
   MaxHosts = 1
   MaxRoutes = 2
   MaxDef = 1
-  NHostVals = 4
-  NPaths = 4
-  NQueries = 3
-  Others = {0, 1}
+  NHostVals = 7
+  NPaths = 7
+  NQueries = 2
+  Others = {0}
   GenLists <- GenListsQuick
   GenHostSeqs <- GenHostSeqsQuick
 SPECIFICATION Spec
